@@ -39,6 +39,12 @@ CHECKS = {
         "note": "Trusts vlib/servers.py, vlib/fakenet.py, vlib/nulltls.py. Known finding KF-C01-close (close() on a response that owns its connection loses the slot) is matched by signature (0 < lost slots <= number of such close() calls) and counted.",
         "design_ref": "DESIGN.md section 4, C01",
     },
+    "C03": {
+        "technique": "Hypothesis-generated histories of 2-4 requests (server framing / keep-alive / stray bytes / surplus body / interim 100 / early EOF / segmentation x caller disposal) + the exhaustive 2-request product, on an in-memory scripted server whose every body is tagged with the request it answers; oracle: ownership of each delivered byte (prefix of a body sent for that very request) and no response from a connection that had bytes or EOF pending when the request arrived",
+        "text": "Requests with unique targets are sent over one pooled keep-alive connection set while earlier responses are read fully, partially and released, released unread, drained, closed, streamed or ignored; the server tags every body with target and serial number and poisons stray bytes, so every byte handed to the caller is attributed to a request and must belong to the caller's own; bodies read to the end without an error must be complete.",
+        "note": "Trusts vlib/servers.py tagging and vlib/fakenet.py; http.client's real buffered reader is in the loop. A surplus body on a 204/304 response that the server itself frames with chunked coding belongs to that request (delivering it is not a cross-request leak).",
+        "design_ref": "DESIGN.md section 4, C03",
+    },
     "C04": {
         "technique": "bounded-exhaustive (budget grid x method class x pool kind x every outcome sequence of length <= 2 quick / <= 3 thorough) + Hypothesis-generated policies and scripts (<= 5 outcomes) against a scripted in-memory server with a virtual clock; oracle: counting invariants over the attempts the server saw, classified by ground-truth fault category, plus the recorded sleeps and how the call ended",
         "text": "The real HTTPConnectionPool / ProxyManager is driven through scripted sequences of connect errors, read errors, TLS record errors and retryable statuses; the attempts observed at the server are counted against total and the per-category budgets, re-sends of non-idempotent methods after read errors or statuses are flagged, every time.sleep of the retry module is bounded by backoff_max or the Retry-After just received, the caller's Retry object is snapshot-compared, and the final exception/response is compared with the last cause; an ample-budget liveness clause guards against a vacuous never-retry.",
